@@ -1,20 +1,11 @@
 // U11: src/aes.rs, src/aes_ctr.rs, AesMode of src/types.rs -- WinZip-AES reader (C16, C09, C05)
 #![feature(sized_hierarchy)]   // only to spell the bounds of core::convert::AsRef in its external trait specification
+#![feature(allocator_api)]     // only to spell the signature of <Vec<T, A> as PartialEq<&[U]>>::ne in its assume_specification
 use vstd::prelude::*;
 verus! {
 //@include shims/io.rs
 //@include shims/aescrypto.rs
 
-// ---------------------------------------------------------------------------
-// Layout of this unit.  The vacuity twin gives EVERY contracted function `ensures false`; a caller whose every path
-// runs through such a callee would then "prove" false for free and the probe would say nothing about it.  The three
-// functions that are called on all paths of another contracted function -- AesMode::key_length, AesMode::salt_length,
-// AesCtrZipKeyStream::new -- are therefore proved in leaf modules (`leaf_key_length`, `leaf_salt_length`,
-// `leaf_ctr_new`) against a second verbatim extraction of the same types, and appear in the main part as
-// contract-only (`nobody`) copies generated from the SAME .vc file, so the assumed and the proved contract cannot differ.
-// ---------------------------------------------------------------------------
-pub mod leaf_key_length {
-use vstd::prelude::*;
 //@item src/types.rs | enum AesMode
 pub open spec fn aes_key_len(m: AesMode) -> int {
     match m { AesMode::Aes128 => 16, AesMode::Aes192 => 24, AesMode::Aes256 => 32 }
@@ -22,44 +13,7 @@ pub open spec fn aes_key_len(m: AesMode) -> int {
 //@impl src/types.rs | impl AesMode
 impl AesMode {
 //@use aesmode_key_length
-}
-}
-pub mod leaf_salt_length {
-use vstd::prelude::*;
-//@item src/types.rs | enum AesMode
-pub open spec fn aes_key_len(m: AesMode) -> int {
-    match m { AesMode::Aes128 => 16, AesMode::Aes192 => 24, AesMode::Aes256 => 32 }
-}
-impl AesMode {
-//@use aesmode_key_length nobody
 //@use aesmode_salt_length
-}
-}
-pub mod leaf_ctr_new {
-use vstd::prelude::*;
-use super::*;
-use super::aes::cipher::{BlockEncrypt, KeyInit, AesKeyed, GenericArray};
-//@item src/aes_ctr.rs | const AES_BLOCK_SIZE
-//@item src/aes_ctr.rs | trait AesKind
-//@item src/aes_ctr.rs | struct AesCtrZipKeyStream
-//@impl src/aes_ctr.rs | impl<C> AesCtrZipKeyStream<C> where C: AesKind, C::Cipher: KeyInit,
-impl<C> AesCtrZipKeyStream<C>
-where
-    C: AesKind,
-    C::Cipher: KeyInit,
-{
-//@use aesctr_new
-}
-}
-
-//@item src/types.rs | enum AesMode
-pub open spec fn aes_key_len(m: AesMode) -> int {
-    match m { AesMode::Aes128 => 16, AesMode::Aes192 => 24, AesMode::Aes256 => 32 }
-}
-//@impl src/types.rs | impl AesMode
-impl AesMode {
-//@use aesmode_key_length nobody
-//@use aesmode_salt_length nobody
 }
 
 pub mod aes_ctr {
@@ -101,7 +55,7 @@ where
     C: AesKind,
     C::Cipher: KeyInit,
 {
-//@use aesctr_new nobody
+//@use aesctr_new
 }
 
 //@impl src/aes_ctr.rs | impl<C> AesCipher for AesCtrZipKeyStream<C> where C: AesKind, C::Cipher: BlockEncrypt,
@@ -136,6 +90,10 @@ where
 pub open spec fn aes_derived(password: Seq<u8>, salt: Seq<u8>, m: AesMode) -> Seq<u8> {
     pbkdf2_hmac_sha1(password, salt, 1000, 2 * aes_key_len(m) + 2)
 }
+// `salt` is what the header read delivered: aes_key_len/2 bytes, for a device the bytes at its position
+pub open spec fn salt_read_from<R: Read>(salt: Seq<u8>, rd: &R, m: AesMode) -> bool {
+    salt.len() == aes_key_len(m) / 2 && (rd.g_dev() ==> salt == at(rd.g_bytes(), rd.g_pos(), aes_key_len(m) / 2))
+}
 // the key material a validated reader carries was cut out of PBKDF2(password, salt) this way
 pub open spec fn keyed_from(cipher_key: Seq<u8>, hmac_key: Seq<u8>, password: Seq<u8>, salt: Seq<u8>, m: AesMode) -> bool {
     let k = aes_key_len(m);
@@ -146,7 +104,7 @@ pub open spec fn keyed_from(cipher_key: Seq<u8>, hmac_key: Seq<u8>, password: Se
 // one successful `read` that returned n > 0 bytes whose ciphertext was ct: MAC input and decryption
 pub open spec fn aes_read_step<R: Read>(o: &AesReaderValid<R>, f: &AesReaderValid<R>, fb: Seq<u8>, n: int, ct: Seq<u8>) -> bool {
     &&& ct.len() == n
-    &&& (o.reader.g_dev() ==> ct == at(o.reader.g_bytes(), o.reader.g_pos(), n))
+    &&& (o.reader.g_dev() && n > 0 ==> ct == at(o.reader.g_bytes(), o.reader.g_pos(), n))
     &&& ctr_xor(o.cipher.g_key(), o.cipher.g_k(), ct, fb.subrange(0, n))
     &&& f.hmac.key() == o.hmac.key()
     &&& (f.data_remaining > 0 ==> f.hmac@ == o.hmac@ + ct)
@@ -154,7 +112,9 @@ pub open spec fn aes_read_step<R: Read>(o: &AesReaderValid<R>, f: &AesReaderVali
             && at(o.reader.g_bytes(), o.reader.g_pos() + n, 10) == hmac_sha1(o.hmac.key(), o.hmac@ + ct).subrange(0, 10))
 }
 
-//@use aes_cipher_from_mode
+// `cipher_from_mode` is NOT verified: Verus rejects its `Box::new(..) as Box<dyn aes_ctr::AesCipher>` ("does not support
+// this cast").  Assumed contract; the precondition is the function's documented panic condition.
+//@use aes_cipher_from_mode nobody
 
 //@impl src/aes.rs | impl<R: Read> AesReader<R>
 impl<R: Read> AesReader<R> {
@@ -163,21 +123,26 @@ impl<R: Read> AesReader<R> {
 }
 
 impl<R: Read> AesReaderValid<R> {
-    // representation invariant: established by `validate`, required and re-established by `read`
+    // representation invariant: established by `validate`, needed and re-established by `read`
     pub open spec fn wf(&self) -> bool {
         (self.finalized ==> self.data_remaining == 0)
         && self.cipher.g_wf() && self.cipher.g_k() >= 0
         && self.cipher.g_k() + self.data_remaining <= ks_limit()
     }
 }
+// ghost: an adapter is not a device.  `g_ready` ("calling read on this object cannot panic") is the hook through which
+// the I/O model lets a trait-impl `read` have a precondition: here it is the representation invariant (without it
+// `assert!(!self.finalized)` could trip) plus readiness of the inner reader.
+impl<R: Read> Dev for AesReaderValid<R> {
+    open spec fn g_dev(&self) -> bool { false }
+    open spec fn g_bytes(&self) -> Seq<u8> { Seq::empty() }
+    open spec fn g_pos(&self) -> int { 0 }
+    open spec fn g_fault(&self) -> bool { false }
+    open spec fn g_ready(&self) -> bool { self.wf() && self.reader.g_ready() }
+}
 
-// `read` is `impl<R: Read> Read for AesReaderValid<R>` in /repo.  Verus refuses `requires` on a trait-impl method
-// (and a type invariant is refused too: the body borrows fields mutably for calls that are not `no_unwind`), but the
-// `assert!(!self.finalized)` is only unreachable-false under wf().  The body is therefore verified, verbatim, as an
-// inherent method with `requires old(self).wf()`; the clauses `trait_contract_*` restate what `Read::read` of the I/O
-// model promises, so the result can stand in for the trait method wherever the caller establishes wf().
 //@impl src/aes.rs | impl<R: Read> Read for AesReaderValid<R>
-impl<R: Read> AesReaderValid<R> {
+impl<R: Read> Read for AesReaderValid<R> {
 //@use aesreadervalid_read
 }
 
